@@ -51,7 +51,8 @@ theorem c04_compMerge_del_dict (rec : Node → Node → Except Err (Node × Bool
           | .error e => .error e
           | .ok (res, same) => .ok (propagate res, !same)
       else
-        match mergeLoop rec sf sk (keptChildren (maybeKeep (.comp of ok ocs)) [] scs) ocs with
+        match mergeLoop rec sf sk (filterNode (maybeKeep (.comp of ok ocs)) [] (.comp sf sk scs)).2
+            (keptChildren (maybeKeep (.comp of ok ocs)) [] scs) ocs with
         | .error e => .error e
         | .ok scs' => finishMerge sf sk scs' (.comp of ok ocs) := by
   simp only [compMerge, hdel, if_true, c04_filterNode_dict_kept _ _ sf sk scs hsk hn, Node.children]
@@ -103,9 +104,9 @@ theorem c04_removeChildE_dictFam {sf : Flags} {sk : CompKind} (hsk : sk.isDictFa
 
 /-- keys after one successful iteration: the key is removed exactly when `stepRemoves`, appended
     when it was missing, and the key list is unchanged otherwise -/
-theorem c04_mergeStep_keys (rec : Node → Node → Except Err (Node × Bool)) {sf : Flags} {sk : CompKind}
+theorem c04_mergeStep_keys {exc : List Path} (rec : Node → Node → Except Err (Node × Bool)) {sf : Flags} {sk : CompKind}
     (hsk : sk.isDictFam = true) {acc acc' : List (Key × Node)} {kv : Key × Node}
-    (h : mergeStep rec sf sk acc kv = .ok acc') :
+    (h : mergeStep rec sf sk exc acc kv = .ok acc') :
     akeys acc' =
       if stepRemoves rec sk acc kv then (akeys acc).erase kv.1
       else if kv.1 ∈ akeys acc then akeys acc else akeys acc ++ [kv.1] := by
@@ -220,10 +221,10 @@ def newKeys : List Key → List Key → List Key
   | _, [] => []
   | seen, k :: r => if k ∈ seen then newKeys seen r else k :: newKeys (seen ++ [k]) r
 
-theorem c04_mergeLoop_keys (rec : Node → Node → Except Err (Node × Bool)) (hrec : RecDelFaithful rec)
+theorem c04_mergeLoop_keys {exc : List Path} (rec : Node → Node → Except Err (Node × Bool)) (hrec : RecDelFaithful rec)
     {sf : Flags} {sk : CompKind} (hsk : sk.isDictFam = true) :
     ∀ (ocs acc acc' : List (Key × Node)), noExplicitDel ocs = true →
-      mergeLoop rec sf sk acc ocs = .ok acc' →
+      mergeLoop rec sf sk exc acc ocs = .ok acc' →
       akeys acc' = akeys acc ++ newKeys (akeys acc) (akeys ocs)
   | [], acc, acc', _, h => by
     simp only [mergeLoop] at h; injection h with h; simp [h, akeys, newKeys]
@@ -231,7 +232,7 @@ theorem c04_mergeLoop_keys (rec : Node → Node → Except Err (Node × Bool)) (
     have hd' : (v.flags.del == some true) = false ∧ noExplicitDel rest = true := by
       simpa [noExplicitDel] using hd
     simp only [mergeLoop] at h
-    cases hs : mergeStep rec sf sk acc (k, v) with
+    cases hs : mergeStep rec sf sk exc acc (k, v) with
     | error e => simp [hs] at h
     | ok acc1 =>
       simp only [hs] at h
@@ -245,10 +246,10 @@ theorem c04_mergeLoop_keys (rec : Node → Node → Except Err (Node × Bool)) (
 
 /-- a key common to both mappings (distinct keys in the newer one, no removal): its value is the
     result of the recursive merge of the two old values -/
-theorem c04_mergeLoop_common (rec : Node → Node → Except Err (Node × Bool)) (hrec : RecDelFaithful rec)
+theorem c04_mergeLoop_common {exc : List Path} (rec : Node → Node → Except Err (Node × Bool)) (hrec : RecDelFaithful rec)
     {sf : Flags} {sk : CompKind} (hsk : sk.isDictFam = true) :
     ∀ (ocs acc acc' : List (Key × Node)), noExplicitDel ocs = true → keysNodup ocs = true →
-      mergeLoop rec sf sk acc ocs = .ok acc' →
+      mergeLoop rec sf sk exc acc ocs = .ok acc' →
       ∀ k c v, alookup k acc = some c → alookup k ocs = some v →
         ∃ nw same, rec c v = .ok (nw, same) ∧
           alookup k acc' = some (if same then nw else adopt sf sk nw)
@@ -258,7 +259,7 @@ theorem c04_mergeLoop_common (rec : Node → Node → Except Err (Node × Bool))
       simpa [noExplicitDel] using hd
     have hn' : k' ∉ akeys rest ∧ keysNodup rest = true := by simpa [keysNodup] using hn
     simp only [mergeLoop] at h
-    cases hs : mergeStep rec sf sk acc (k', v') with
+    cases hs : mergeStep rec sf sk exc acc (k', v') with
     | error e => simp [hs] at h
     | ok acc1 =>
       simp only [hs] at h
@@ -309,12 +310,12 @@ theorem c04_mergeLoop_common (rec : Node → Node → Except Err (Node × Bool))
 /-! ### remove-this-key cases of the loop body -/
 
 /-- leaf child: the recursive merge returned a different object that is falsy and explicitly `!del` -/
-theorem c04_mergeStep_leaf_removed (rec : Node → Node → Except Err (Node × Bool)) (sf : Flags) (sk : CompKind)
+theorem c04_mergeStep_leaf_removed {exc : List Path} (rec : Node → Node → Except Err (Node × Bool)) (sf : Flags) (sk : CompKind)
     (acc : List (Key × Node)) (k : Key) (v child nw : Node)
     (hget : getChild sk k acc = some child) (hleaf : child.isComp = false)
     (hrec : rec child v = .ok (nw, false)) (hnl : nw.isComp = false)
     (htruthy : nw.truthy = false) (hdel : nw.flags.del = some true) :
-    mergeStep rec sf sk acc (k, v) = removeChildE sf sk k acc := by
+    mergeStep rec sf sk exc acc (k, v) = removeChildE sf sk k acc := by
   have hb : reqNewBelow nw = none := by
     cases nw with
     | leaf f lk => rfl
@@ -323,13 +324,13 @@ theorem c04_mergeStep_leaf_removed (rec : Node → Node → Except Err (Node × 
 
 /-- composed child: it came out empty, does not outrank the newer value, and the newer value is
     explicitly `!del` -/
-theorem c04_mergeStep_comp_removed (rec : Node → Node → Except Err (Node × Bool)) (sf : Flags) (sk : CompKind)
+theorem c04_mergeStep_comp_removed {exc : List Path} (rec : Node → Node → Except Err (Node × Bool)) (sf : Flags) (sk : CompKind)
     (acc : List (Key × Node)) (k : Key) (v child nw : Node) (same : Bool)
     (hget : getChild sk k acc = some child) (hcomp : child.isComp = true)
     (hrec : rec child v = .ok (nw, same))
     (htruthy : nw.truthy = false) (hprio : hasPrio nw.flags v.flags false = false)
     (hdel : v.flags.del = some true) :
-    mergeStep rec sf sk acc (k, v) = removeChildE sf sk k acc := by
+    mergeStep rec sf sk exc acc (k, v) = removeChildE sf sk k acc := by
   simp [mergeStep, hget, hrec, hcomp, htruthy, hprio, hdel]
 
 
